@@ -23,7 +23,8 @@ MC_BASE = {
     'mb_perp':  base('mb', 2, 2, 2, 2, 2, maxitems=2, perpetual=True),
     'mu':       base('mu', 1, 0, 3, 2, 2),
     'mu3':      base('mu', 1, 0, 3, 2, 3),                        # thorough (4 M states)
-    'mu_perp':  base('mu', 1, 0, 3, 2, 2, maxitems=2, perpetual=True),
+    'mu_perp':  base('mu', 1, 0, 2, 2, 2, maxitems=1, perpetual=True),   # 40 k states; always-ready sources in groups of 1 and 2
+    'mu_perp3': base('mu', 1, 0, 3, 2, 2, maxitems=1, perpetual=True),   # thorough: 1.7 M states
     'bu':       base('bu', 2, 0, 3, 2, 2),
     'bo':       base('bo', 2, 0, 3, 2, 2),
     'tbu':      base('tbu', 2, 0, 3, 2, 2),
@@ -125,7 +126,8 @@ PLAN = {
             'random': suite(JOIN_KINDS, 600, 6000, 60, 600) + [rnd(k, 'small', 'panic', 200, 2000) for k in JOIN_KINDS] + [rnd(k, 'small', 'dpanic', 200, 2000) for k in JOIN_KINDS]},
     'C08': {'mc': mcs('fub', 'fu', 'mu'),
             'gen': gens('fub', 'fu', 'mu', 'bu', 'tja'),
-            'random': suite(COLL_KINDS + MERGE_KINDS, 250, 2500, 30, 300, profiles=('oscillate',)) + suite(ADAPT_KINDS + JOIN_KINDS, 100, 1000, 10, 100)},
+            'random': suite(COLL_KINDS + MERGE_KINDS, 250, 2500, 30, 300) + [rnd(k, 'real', 'oscillate', 5, 150) for k in COLL_KINDS + MERGE_KINDS]
+                      + suite(ADAPT_KINDS + JOIN_KINDS, 100, 1000, 10, 100)},
     'C09': {'mc': mcs('bu', 'bo', 'tbu', 'tbo', 'fe'),
             'gen': gens('bu', 'bo', 'tbu', 'tbo', 'fe'),
             'random': suite(ADAPT_KINDS, 400, 4000, 40, 400)},
@@ -139,11 +141,11 @@ PLAN = {
             'gen': gens('fub', 'fu', 'mb'),
             'random': suite(COLL_KINDS + MERGE_KINDS, 250, 2500, 20, 200, profiles=('stale',))
                       + [rnd(k, 'small', 'panic', 80, 800) for k in COLL_KINDS + MERGE_KINDS]},
-    'C13': {'mc': mcs('fub_perp', 'mb_perp', 'fu_perp', 'mu_perp') + [live('fub'), live('mb', MaxPolls=2), live('mu', NC=2), live('fu')],
+    'C13': {'mc': mcs('fub_perp', 'mb_perp', 'fu_perp', 'mu_perp', thorough=('mu_perp3',)) + [live('fub'), live('mb', MaxPolls=2), live('mu', NC=2), live('fu')],
             'gen': gens('fub', 'mb'),
             'random': suite(COLL_KINDS + MERGE_KINDS, 150, 1500, 10, 100, profiles=('budget',))
                       + [rnd(k, 'small', 'starve', 60, 600) for k in COLL_KINDS + MERGE_KINDS]
-                      + [rnd(k, 'real', 'starve', 17, 170) for k in COLL_KINDS + MERGE_KINDS]
+                      + [rnd(k, 'real', 'starve', 17, 170) for k in ('fub', 'mb', 'mu')] + [rnd(k, 'real', 'starve', 4, 170) for k in ('fu', 'fob', 'fo')]
                       + [rnd(k, 'small', 'churn', 30, 300) for k in ['fu', 'fo']]
                       + [rnd(k, 'real', 'manygroups', 8, 80) for k in ('fu', 'fo', 'mu')]},
     'C14': {'mc': mcs('fub', 'fub_b1', 'fu', 'mb', 'bu'),
@@ -168,5 +170,36 @@ PLAN = {
 }
 
 HOOK_COMMITS = ['f17c35b', '748a996', 'e526430', '6de2393']
-META = {}
+
+_BIND = ('The specification is bound to the code in both directions: TLC-generated behaviours (state cover of the small model) are executed on the real crate '
+         'and the recorded events compared with the predicted ones; every recorded execution (generated, random, adversarial) is validated by TLC against the '
+         'property machine Abs.tla, whose failing clause names this property.')
+def _m(text, note=None, tech='TLA+ spec (Coll.tla + Abs.tla) model-checked by TLC; TLC-generated behaviours replayed on the real crate; trace validation of every recorded run'):
+    d = {'text': text + ' ' + _BIND, 'technique': tech}
+    if note: d['note'] = note
+    return d
+META = {
+ 'C01': _m('No lost wake-up: clause CheckLost of Abs.tla (asleep after Pending with an un-polled woken/new child and the latest task waker not invoked) and the structural invariant ObligQueued are invariants of Coll||Abs for all histories of the small bounds (7 kinds, budget 1 and 2, 2 task wakers); WakerProtocol.tla checks NoLostWakeup for all interleavings at atomic-operation grain (Vyukov queue, DiatomicWaker bit tables); a liveness property (Progress under a fair owner) is checked without state constraint. On the code: every schedule with at most 2 (thorough 3) preemptions of seven owner/producer programs is forced onto real threads by a gate scheduler and validated, plus random gate schedules and all sequential drivers.',
+            'SC only: reorderings inside cordyceps/diatomic-waker/spin are trusted; the interior of enqueue/dequeue cannot be split on real threads (covered by the atomic-grain model only).',
+            'TLA+ specs (Coll, WakerProtocol, Abs) + TLC; gate-scheduled exhaustive thread schedules and replayed TLC behaviours on the real crate; trace validation'),
+ 'C02': _m('Exactly-once delivery and None iff empty are clauses of Abs.tla (Yield, Finished, drain) checked as invariants of Coll||Abs for the four collections incl. group creation/removal/keep-last/cursor and slot reuse.'),
+ 'C03': _m('RefCount.tla (owners, free at 1->0, vector-clock happens-before) is model-checked with the atomic orderings EXTRACTED from src/waker_list.rs; the probe events of real executions (allocation, release with layout, every waker-vtable entry with the header it resolves to, old reference counts, task-waker clone/drop) are validated by TLC against AbsRc.tla: accounting, release exactly once by the thread that took the count to zero, nothing touches a released block, nothing leaks, the registered task waker is destroyed only inside register or the release. Real threads: exhaustive preemption-bounded schedules, random gate schedules, free-running stress.',
+            'the memory orderings are bound statically (extractor + model), not observed; UB without an observable event (provenance, aliasing) is out of reach of this technique.',
+            'TLA+ specs (RefCount, AbsRc) + TLC; probe-trace validation of sequential and gate-scheduled executions'),
+ 'C04': _m('Ordered.tla models the ordering layer with K-bit wrapping counters and exactly the arithmetic of the code, for ALL 2^K start values (K=4, thorough 5) with a TLC-checked homomorphism to wider counters; its behaviours are replayed on FuturesOrdered/FuturesOrderedBounded seeded (hook) at the 64-bit images of the start values; yield order is a clause of Abs.tla (reference deque), also for the ordered adapters and the joins.'),
+ 'C05': _m('A finished child is never polled again and is dropped before the poll that saw it finish returns: clauses of Abs.tla (StepCin, StepRet), invariants of Coll||Abs incl. stale wakers on vacated and reused slots.'),
+ 'C06': _m('Every child and output is dropped exactly once: clauses of Abs.tla evaluated at every drop event, at the end of the drop of the collection and at the end of the run; the state cover is prefix-closed and replayed with a "drop now" tail, i.e. the collection is dropped after every prefix.'),
+ 'C07': _m('join_all/try_join_all never hand out a value no input produced: clauses StepVec/StepErr of Abs.tla over tagged tokens (a fabricated or uninitialised element is recognised by its tag), invariants of Coll||Abs for all completion orders, failing subsets and re-polls after the first Ready.'),
+ 'C08': _m('The address of every !Unpin child is logged at each poll and at drop and must never change (clause of Abs.tla), across group growth/removal/rotation, slot reuse and moves of the collection value.'),
+ 'C09': _m('The concurrency limit is respected and the adapters are work-conserving: clauses of Abs.tla (StepUp, StepRet) and invariants of Coll||Abs with a nondeterministic upstream (items, Pending gaps, errors, end).'),
+ 'C10': _m('Upstream is consumed once, in order, fused, and the adapters end exactly when done: clauses of Abs.tla; the documented limit 0 of for_each_concurrent is exercised and is a recorded known finding.'),
+ 'C11': _m('Merge = union of the sources in per-source order, None iff all ended, Pending only while a source is pending: clauses of Abs.tla, invariants of Coll||Abs for MergeBounded/MergeUnbounded incl. sources pushed while running and groups emptied in the middle.'),
+ 'C12': _m('Children are polled only on notification (per-child clause, sharper than the count form), also for wakers invoked on other threads where the notification is consumed at the flag clear.'),
+ 'C13': _m('Bounded waiting and bounded work: wait counters and work counters of Abs.tla; Coll.tla with perpetual children makes starvation a reachable lasso and is checked against the tight bound (peak+2) and, as liveness, Progress under a fair owner; on the code always-ready sources / perpetual self-wakers at populations around the group boundaries and the multiples of the per-poll budget.'),
+ 'C14': _m('No busy-spinning: quiet-phase counter and "task waker only inside a poll or a child-waker call" of Abs.tla; quiet tails (held+3 polls without activity) are appended to the replayed state cover and to random runs. The budget/stale-waker corner is a recorded known finding.'),
+ 'C15': _m('Capacity and observer contract: the observers are read after every operation and compared by Abs.tla with accepted - yielded; refusal/panic of push; a delivery fault after a refused push counts as a fault of the refusal contract.'),
+ 'C16': _m('Back-pressure of the ordered adapters (pulled - yielded <= n) is a clause of Abs.tla, invariant of Coll||Abs; head-of-line stall profile on the code.'),
+ 'C17': _m('size_hint is compared after every operation with the number of items the stream will still yield, which the environment knows (scripts), for honest upstream hints exact / lower-only / none / loose.'),
+ 'C18': _m('A counting global allocator attributes allocations to "inside the crate"; zero after construction for the bounded kinds, adapters and joins, logarithmic in the peak for the unbounded kinds (clauses of Abs.tla), under long fill/drain/refill oscillations with waker clone/drop storms.'),
+}
 UNCLAIMED = {}
